@@ -338,8 +338,8 @@ def mc_scenarios(thorough):
     if thorough:
         S += [(t, name + " (larger)", props.replace("only", "") + " thorough", False) for name, props, q, t in T if t is not None]
     if thorough:
-        S += [(M(sends=[[R(1)], [R(2)]], writes=W2, ops=[SEND, SEND, O("read", 1), ALL], room=0, lookahead=1, workers=2), "2 workers, partial drain, la=1", "C04 C05 thorough", False),
-              (M(sends=[[R(1), R(2, True)], [R(3)]], writes=W2, ops=[SEND, SEND, ALL], room=1, lookahead=2, workers=2), "plain, close | plain, la=2, 2 workers", "C04 C11 thorough", False),
+        S += [(M(sends=[[R(1)], [R(2)]], writes=[[2], [1]], ops=[SEND, SEND, O("read", 1), ALL], room=0, lookahead=1, workers=2), "2 workers, partial drain, la=1", "C04 C05 thorough", False),
+              (M(sends=[[R(1), R(2, True)], [R(3)]], writes=[[1], [1], [1]], ops=[SEND, SEND, ALL], room=1, lookahead=2, workers=2), "plain, close | plain, la=2, 2 workers", "C04 C11 thorough", False),
               (M(sends=[[R(1, w="head")], [R(1, w="body")], [R(2, w="head")], [R(2, w="body")]], writes=W2, ops=[SEND, O("read", -1), AW(1), SEND, SEND, AW(2), SEND], room=1, lookahead=1),
                "two expecting requests, slow client, la=1", "C19 thorough", False),
               (M(sends=[[R(1)], [R(2), R(3, w="head")], [R(3, w="body")]], writes=W2, ops=[SEND, SEND, AW(1), SEND], lookahead=2, workers=2),
